@@ -13,7 +13,10 @@ def plog_pipeline(ck, eng, ntraces, proofs_ok):
     import dbengine, dbprops, schedpipe as sp
     deng = dbengine.Engine(ck)
     deng.binp = eng.bin
-    traces = [sp.gen_plog_trace(ck.rng, eng.ttl, eng.step) for _ in range(ntraces)]
+    # the grid: what happens to the included list x whether the NodeHost misses reports; then PRNG fleets
+    traces = [sp.gen_plog_trace(ck.rng, eng.ttl, eng.step, kind=k, mode=m) for _ in range(1 if ck.tier == "quick" else 20)
+              for k in sp.PLOG_EVENTS for m in sp.PLOG_MODES]
+    traces += [sp.gen_plog_trace(ck.rng, eng.ttl, eng.step) for _ in range(ntraces)]
     if proofs_ok:
         results, _ = dbprops.run_db_property(ck, deng, traces, [sp.mon_plog_db])
     else:
@@ -73,7 +76,7 @@ def run(ck):
                 c["chain"] = 1
                 c["tag"] += "/chained"
         ctxs += rnd
-        pipe = plog_pipeline(ck, eng, 40 if quick else 1200, proofs_ok)
+        pipe = plog_pipeline(ck, eng, 25 if quick else 1200, proofs_ok)
         if pipe is None or ck.violations:
             return
         ctxs += pipe
